@@ -1,8 +1,19 @@
 import Verif.Model.Options
 import Verif.Gen.CliFlags
 import Verif.Gen.JsVersionGates
+import Verif.Gen.OptionSites
 import Verif.Props.C07
 import Verif.Props.C06
+import Verif.Props.C08
+import Verif.Props.C04
+import Verif.Props.C05
+import Verif.Proofs.RenameTree
+import Verif.Proofs.JsMinSound
+import Verif.Proofs.HtmlWs
+import Verif.Proofs.NumJson
+import Verif.Proofs.C16HtmlOpt
+import Verif.Proofs.C16JsVersion
+import Verif.Proofs.C16Svg
 /-!
 # C16 — options only restrict minification and are honoured
 
@@ -12,44 +23,53 @@ import Verif.Props.C06
   quantified over the option records there): JSON `KeepNumbers`, XML `KeepWhitespace`, … (the list grows as the
   HTML/CSS/SVG/JS models are merged; see docs/C16.md).
 -/
+set_option maxRecDepth 1000000
 namespace Verif.Props.C16
 open Verif.Model.Options
 
-/-- **Version gate.** If the output uses a feature that is newer than the (non-zero) target edition,
-    the input already used it — for every feature, target and applicability of the rewrite. -/
+/-- **Version gate** (full since 2252d4e; the property shorthand was ungated before: former K-C16-3).  If the output uses
+    a feature that is newer than the (non-zero) target edition, the input already used it — for every feature, target
+    and applicability of the rewrite. -/
 theorem version_gate (target : Nat) (f : Feature) (inputHas rw : Bool)
     (ht : target ≠ 0) (hnew : target < f.since) (he : emits target f inputHas rw = true) :
     inputHas = true := by
   cases inputHas with
   | true => rfl
   | false =>
-    have hg : guardOf f = f.since := by cases f <;> rfl
-    simp only [emits, Bool.false_or, Bool.and_eq_true, minVersion, Bool.or_eq_true, beq_iff_eq,
-      decide_eq_true_eq, hg] at he
-    rcases he.2 with h | h
-    · exact absurd h ht
-    · omega
+    exfalso
+    cases f <;>
+      (simp only [emits, gatePasses, guardOf, minVersion, Feature.since, Bool.false_or, Bool.and_eq_true, Bool.or_eq_true,
+        beq_iff_eq] at he hnew
+       rcases he.2 with h | h
+       · omega
+       · have := of_decide_eq_true h; omega)
 
 /-- target 0 means "latest": every rewrite is allowed (non-vacuity of the gate's other branch) -/
 example : emits 0 .nullish false true = true := by decide
 example : emits 2019 .nullish false true = false := by decide
 example : emits 2019 .nullish true false = true := by decide
+example : emits 5 .propertyShorthand false true = false ∧ emits 2015 .propertyShorthand false true = true := by decide
+example : (2019 : Nat) ≠ 0 ∧ 2019 < Feature.since .nullish := by decide
 
 /-- The regenerated gate facts (harness/cmd/extract/c16_flags.go; all names resolved through the type checker, so renames,
     hoisted conditions, helpers and moved code do not matter):
-    * there is exactly one gate function of the shape `o.Version == 0 || v <= o.Version` — the shape `minVersion` of the model;
+    * there is exactly one gate function of the shape `o.Version == 0 || v <= o.Version` — the shape `minVersion` of the model
+      (with the literals of `guardOf`);
     * the versions that are tested are exactly the modelled features' (2015 template literals and shorthand properties,
       2016 `**`, 2019 optional catch binding, 2020 `??` / `?.`);
     * every place that CREATES newer syntax is dominated by the gate of its feature: `**` bytes by 2016; a `Nullish` token
       and setting a node's `Optional` flag (both only in the nullish rewrite) by 2020; template literals by the 2015 gate
       handed to `minifyString`; `?.` bytes are written only under a test of the node's own `Optional` flag, i.e. copied from the
-      input.  An ungated producer shows up as `…: UNGATED in f`, a producer under the wrong gate with that gate's version. -/
+      input; the object-literal shorthand (`js.Property`) is decided by a condition that consults the 2015 gate, the shorthand
+      of a destructuring pattern (`js.BindingObjectItem`, itself ES2015 syntax of the input) is not gated.
+    An ungated producer shows up as `…: UNGATED in f`, a producer under the wrong gate with that gate's version. -/
 theorem gates_ok :
     Verif.Gen.JsVersionGates.gateFunctions = 1 ∧
     Verif.Gen.JsVersionGates.gateVersions = [2015, 2016, 2019, 2020] ∧
     Verif.Gen.JsVersionGates.producers =
-      ["bytes **: gated 2016", "bytes ?.: input-flag Optional", "set Optional: gated 2020", "template: gated 2015",
-       "token NullishToken: gated 2020"] := by decide
+      ["bytes **: gated 2016", "bytes ?.: input-flag Optional",
+       "property shorthand of js.BindingObjectItem: no gate", "property shorthand of js.Property: condition consults gate 2015",
+       "set Optional: gated 2020", "template: gated 2015", "token NullishToken: gated 2020"] := by decide
 
 /-- every CLI flag is bound to the option field its name says (`flag=package.Field`; the option struct is identified by its
     type, the flag name by its constant value) -/
@@ -76,12 +96,580 @@ def cliBound : List String :=
 theorem options_covered :
     Verif.Gen.CliFlags.optionFields.all (fun f => libraryOnly.contains f || cliBound.contains f) = true := by decide
 
-/-! ## per-option theorems (re-exported) -/
+/-! ## where the options are consulted (regenerated) -/
+
+/-- every read or write of an option field in the six minifier packages, with its context (regenerated from the
+    source on every run): the `Precision` fields reach nothing but `minify.Number`/`minify.Decimal` (and the JS
+    literal printers), `newPrecision` is the clamped copy used for numbers the SVG path shortener computes itself,
+    every `Keep*` field is read at the sites modelled by the theorems below, the only writes go to the private copy
+    `Minify` makes (`KeepConditionalComments` is folded into `KeepSpecialComments`; `Inline` from the `inline`
+    parameter).  A new consumer of an option, or a check that disappears, changes this list. -/
+theorem option_sites_ok :
+    Verif.Gen.OptionSites.sites =
+      ["css.Minifier.Minify: Inline WRITE", "css.Minifier.Minify: Inline arg of css.NewParser",
+       "css.Minifier.Minify: Inline if !o.Inline", "css.Minifier.Minify: Precision assigned to o.newPrecision",
+       "css.Minifier.Minify: newPrecision WRITE", "css.Minifier.Minify: newPrecision WRITE",
+       "css.Minifier.Minify: newPrecision if o.newPrecision <= 0 || 15 < o.newPrecision",
+       "css.Minifier.Minify: newPrecision if o.newPrecision <= 0 || 15 < o.newPrecision",
+       "css.cssMinifier.minifyNumber: KeepCSS2 if c.o.KeepCSS2 && bytes.IndexByte(num, 'e') == -1 && bytes.Ind..",
+       "css.cssMinifier.minifyNumber: Precision arg of minify.Decimal",
+       "css.cssMinifier.minifyNumber: Precision arg of minify.Number",
+       "css.cssMinifier.minifyProperty: KeepCSS2 if !c.o.KeepCSS2",
+       "html.Minifier.Minify: KeepComments if o.KeepComments", "html.Minifier.Minify: KeepConditionalComments WRITE",
+       "html.Minifier.Minify: KeepConditionalComments if o.KeepConditionalComments",
+       "html.Minifier.Minify: KeepDefaultAttrVals if !o.KeepDefaultAttrVals && (attr.Hash == Type && (t.Hash == S..",
+       "html.Minifier.Minify: KeepDefaultAttrVals if t.Hash == Input && !o.KeepDefaultAttrVals",
+       "html.Minifier.Minify: KeepDocumentTags assigned to isDocTag",
+       "html.Minifier.Minify: KeepEndTags if !o.KeepEndTags",
+       "html.Minifier.Minify: KeepEndTags if o.KeepEndTags && isDocTag",
+       "html.Minifier.Minify: KeepQuotes arg of html.EscapeAttrVal",
+       "html.Minifier.Minify: KeepSpecialComments WRITE",
+       "html.Minifier.Minify: KeepSpecialComments if o.KeepSpecialComments",
+       "html.Minifier.Minify: KeepWhitespace if o.KeepWhitespace",
+       "html.Minifier.Minify: KeepWhitespace if o.KeepWhitespace || t.Traits & objectTag != 0",
+       "html.Minifier.Minify: KeepWhitespace if o.KeepWhitespace || t.Traits & objectTag != 0",
+       "html.Minifier.Minify: TemplateDelims arg of html.NewTemplateLexer",
+       "js.Minifier.Minify: KeepVarNames arg of newRenamer", "js.Minifier.Minify: KeepVarNames if o.KeepVarNames",
+       "js.Minifier.Minify: useAlphabetVarNames arg of newRenamer", "js.Minifier.minVersion: Version returned",
+       "js.Minifier.minVersion: Version returned",
+       "js.jsMinifier.countHoistLength: KeepVarNames if !m.o.KeepVarNames",
+       "js.jsMinifier.minifyArrowFunc: KeepVarNames assigned to m.renamer.rename",
+       "js.jsMinifier.minifyExpr: Precision arg of binaryNumber",
+       "js.jsMinifier.minifyExpr: Precision arg of decimalNumber",
+       "js.jsMinifier.minifyExpr: Precision arg of hexadecimalNumber",
+       "js.jsMinifier.minifyExpr: Precision arg of octalNumber",
+       "js.jsMinifier.minifyFuncDecl: KeepVarNames assigned to m.renamer.rename",
+       "js.jsMinifier.minifyMethodDecl: KeepVarNames assigned to m.renamer.rename",
+       "json.Minifier.Minify: KeepNumbers if !o.KeepNumbers && 0 < len(text) && ('0' <= text[0] && text[0..",
+       "json.Minifier.Minify: Precision arg of minify.Number", "svg.Minifier.Minify: Inline WRITE",
+       "svg.Minifier.Minify: Inline if !o.Inline",
+       "svg.Minifier.Minify: Inline if tag == Svg && (o.Inline && attr == Xmlns || attr == Version ..",
+       "svg.Minifier.Minify: KeepComments if o.KeepComments",
+       "svg.Minifier.Minify: Precision assigned to o.newPrecision", "svg.Minifier.Minify: newPrecision WRITE",
+       "svg.Minifier.Minify: newPrecision WRITE",
+       "svg.Minifier.Minify: newPrecision if o.newPrecision <= 0 || 15 < o.newPrecision",
+       "svg.Minifier.Minify: newPrecision if o.newPrecision <= 0 || 15 < o.newPrecision",
+       "svg.Minifier.shortenDimension: Precision arg of minify.Number",
+       "svg.PathData.shortenAltPosInstruction: newPrecision arg of minify.Number",
+       "svg.PathData.shortenCurPosInstruction: Precision arg of minify.Number",
+       "xml.Minifier.Minify: KeepWhitespace if !o.KeepWhitespace",
+       "xml.Minifier.Minify: KeepWhitespace if next.TokenType == xml.TextToken && !o.KeepWhitespace && pars..",
+       "xml.Minifier.Minify: KeepWhitespace if o.KeepWhitespace",
+       "xml.Minifier.Minify: KeepWhitespace if o.KeepWhitespace"] := by decide
+
+/-! ## per-option theorems: JSON, XML (re-exported from the language models) -/
 
 /-- JSON `KeepNumbers`: every lexeme, numbers included, is byte-identical — for every value, decoration and whatever `Number` does -/
 theorem json_keep_numbers : type_of% @Verif.Props.C07.C07_keepNumbers := @Verif.Props.C07.C07_keepNumbers
 
+/-- JSON `KeepNumbers`, one lexeme: written unchanged for every `Precision` and whatever `minify.Number` does -/
+theorem json_keep_numbers_lexeme (o : Verif.Model.Json.JsonOpts) (num : List Char → Int → List Char)
+    (hk : o.keepNumbers = true) (s : List Char) : Verif.Model.Json.jsonNum o num s = s :=
+  Verif.Props.C07.jsonNum_keep o num hk s
+
+/-- JSON `Precision ≤ 0` ("no trimming"), with the C08 model of `minify.Number` plugged in: what is written for a
+    number lexeme denotes the same rational — for every `KeepNumbers` -/
+theorem json_precision_zero (o : Verif.Model.Json.JsonOpts) (hp : o.precision ≤ 0) (s : List Char)
+    (hs : Verif.Spec.Json.isJsonNumber s = true) :
+    Verif.Spec.Json.numVal (Verif.Model.Json.jsonNum o Verif.Model.Num.number s) = Verif.Spec.Json.numVal s :=
+  (Verif.Props.C07.jsonNum_value o _ (Verif.Proofs.Num.number_numGrammar o.precision)
+    (Verif.Proofs.Num.number_numValue o.precision hp) s hs).1
+
+example : Verif.Spec.Json.isJsonNumber "1.50e+3".toList = true := by decide
+
 /-- XML `KeepWhitespace`: a space next to a tag is never removed entirely (partial: guards of C06) -/
 theorem xml_keep_whitespace : type_of% @Verif.Props.C06.keep_ws_never_removed := @Verif.Props.C06.keep_ws_never_removed
+
+/-! ## `Precision` (css, js, json, svg): the contract of `minify.Number` / `minify.Decimal` (C08)
+
+Every minifier hands number lexemes to `minify.Number(lexeme, Precision)` (CSS with `KeepCSS2`: `minify.Decimal`);
+the regenerated fact `option_sites_ok` above lists these call sites.  The C08 model is the model of that
+function for every precision. -/
+
+/-- `Precision ≤ 0` means no rounding: the number written denotes exactly the same rational -/
+theorem precision_zero_exact (s : List Char) (p : Int) (hs : Verif.Spec.Num.isNumber s = true) (hp : p ≤ 0) :
+    Verif.Spec.Num.numVal (Verif.Model.Num.number s p) = Verif.Spec.Num.numVal s :=
+  Verif.Props.C08.number_value s p hs hp
+
+/-- `Precision p > 0`: the number written is within half a unit of the `p`-th significant digit of the input -/
+theorem precision_round : type_of% @Verif.Props.C08.number_round := @Verif.Props.C08.number_round
+
+/-- the same two statements for `minify.Decimal` (CSS with `KeepCSS2`) -/
+theorem precision_zero_exact_decimal (s : List Char) (p : Int) (hs : Verif.Spec.Num.isDecimal s = true) (hp : p ≤ 0) :
+    Verif.Spec.Num.numVal (Verif.Model.Num.decimal s p) = Verif.Spec.Num.numVal s :=
+  Verif.Props.C08.decimal_value s p hs hp
+
+theorem precision_round_decimal : type_of% @Verif.Props.C08.decimal_round := @Verif.Props.C08.decimal_round
+
+/-- whatever the precision, the result is a number lexeme again (nothing else happens to it) -/
+theorem precision_grammar (s : List Char) (p : Int) (hs : Verif.Spec.Num.isNumber s = true) :
+    Verif.Spec.Num.isNumber (Verif.Model.Num.number s p) = true :=
+  Verif.Props.C08.number_grammar s p hs
+
+example : Verif.Spec.Num.isNumber "12.3450e1".toList = true ∧
+    Verif.Model.Num.number "12.3450e1".toList 0 = "123.45".toList ∧
+    Verif.Model.Num.number "12.3450e1".toList 2 = "120".toList := by decide
+
+/-! ## CSS -/
+section Css
+open Verif.Model.Css
+
+/-- CSS `KeepCSS2`: a number lexeme without exponent is written without exponent (CSS 2.1 has none) -/
+theorem css_keepcss2_no_exponent : type_of% @Verif.Props.C04.keepcss2_no_exponent := @Verif.Props.C04.keepcss2_no_exponent
+
+/-- CSS `KeepCSS2`: the CSS3 keyword `initial` is not substituted for `transparent` in `background-color`:
+    the property-specific step only shortens the colour -/
+theorem css_keepcss2_no_initial (vs : List Verif.Spec.CssValue.Tok) (h : vs.length ≤ 100) :
+    minifyProperty ⟨true⟩ (S "background-color") vs = some (mapHead minifyColor vs) := by
+  unfold minifyProperty
+  rw [if_neg (by omega)]
+  repeat rw [if_neg (by decide +kernel)]
+  rw [if_pos (by decide +kernel)]
+  congr 1
+
+/-- and without the option the substitution happens (the option is what prevents it) -/
+example : minifyProperty ⟨false⟩ (S "background-color") [⟨.ident, S "transparent", []⟩] = some [⟨.ident, S "initial", []⟩] ∧
+    minifyProperty ⟨true⟩ (S "background-color") [⟨.ident, S "transparent", []⟩] = some [⟨.ident, S "transparent", []⟩] := by
+  decide +kernel
+
+end Css
+
+/-! ## JavaScript -/
+
+section Js
+open Verif.Spec.Scope Verif.Model.Rename Verif.Proofs.Rename
+
+/-- JS `KeepVarNames`: with the flags `Minify` computes for `KeepVarNames` (`Tree.withFlags true`) no scope is
+    renamed and every binding keeps its name — for every scope tree (every placement of `with`, every nesting), every
+    naming and every name-generator configuration (same statement as C02 `keep_identity`, proved here from the C02
+    lemmas so that C16 does not depend on the C02 property file) -/
+theorem js_keep_var_names (c : Cfg) (ν : Naming) (t : Tree) :
+    renameTree c ν (Tree.withFlags true t) = ν := by
+  apply noneRenamed_id
+  simp only [Tree.withFlags, Tree.toForest, all_node, Bool.not_true, Bool.not_false]
+  exact ⟨trivial, computeFlags_keep _, rfl⟩
+
+/-- JS `KeepVarNames` at the level of one `renameScope` call with the rename flag off: the old names in the old order -/
+theorem js_keep_var_names_scope (c : Cfg) (sc : ScopeIn) :
+    (renameScope c false sc).map (·.2) = sc.declared.map (·.1) ∧
+    (renameScope c false sc).map (·.1) = List.range sc.declared.length := by
+  simp only [renameScope, Bool.false_eq_true, if_false]
+  constructor
+  · rw [← List.unzip_snd, List.unzip_zip (by simp)]
+  · rw [← List.unzip_fst, List.unzip_zip (by simp)]
+
+/-- JS `Version` below 2020 in the C01 model of the rewriter: with the gate closed (`v20 = false`) the node rewriter
+    of `minifyExpr` (`optimizeCondExpr` with all its rewrites — `c?x:y → c||y`, call merging, boolean bodies, De Morgan,
+    nested and comma conditionals — and `optimizeUnaryExpr`) maps an expression without `??`/`??=` to one without:
+    every expression, every precedence context, guarded or not.  (`?.`: the optional-chaining rewrite is the
+    `unmodelled` branch of `toNullish`, reachable only with `v20 = true`.) -/
+theorem js_version_no_new_nullish (g : Bool) (e : Verif.Spec.JsSyntax.E) (p : Nat) (r : Verif.Spec.JsSyntax.E)
+    (he : Verif.Proofs.C16JsVersion.nn e = true) (h : Verif.Model.JsPrint.optNode g false e p = some r) :
+    Verif.Proofs.C16JsVersion.nn r = true :=
+  Verif.Proofs.C16JsVersion.nn_optNode g e p r he h
+
+/-- the same for `optimizeCondExpr` on its three parts -/
+theorem js_version_no_new_nullish_cond (g : Bool) (c x y : Verif.Spec.JsSyntax.E) (p : Nat) (r : Verif.Spec.JsSyntax.E)
+    (hc : Verif.Proofs.C16JsVersion.nn c = true) (hx : Verif.Proofs.C16JsVersion.nn x = true)
+    (hy : Verif.Proofs.C16JsVersion.nn y = true) (h : Verif.Model.JsOpt.optCond g false c x y p = some r) :
+    Verif.Proofs.C16JsVersion.nn r = true :=
+  Verif.Proofs.C16JsVersion.nn_optCond g c x y p r hc hx hy h
+
+/-- non-vacuity: `a==null?b:a` has no `??`; with the gate open the rewrite produces one, with the gate closed the
+    conditional stays -/
+example :
+    let c := Verif.Spec.JsSyntax.E.bin .eq (.var "a") (.lit .null)
+    Verif.Proofs.C16JsVersion.nn (.cond c (.var "b") (.var "a")) = true ∧
+    (Verif.Model.JsOpt.optCond false true c (.var "b") (.var "a") 0).map Verif.Proofs.C16JsVersion.nn = some false ∧
+    (Verif.Model.JsOpt.optCond false false c (.var "b") (.var "a") 0).map Verif.Proofs.C16JsVersion.nn = some true := by
+  decide +kernel
+
+end Js
+
+/-! ## HTML (`Verif.Model.Html`, the model of the token loop of `html/html.go`)
+
+`pieces`: the bytes the model writes are the concatenation, in token order, of one piece per input token
+(`Proofs/C16Html.lean`: `trace`, `run_eq_trace`).  Each option theorem says what the piece of a kept construct is —
+for every token stream, every value of the other options, every sub-minifier `sub` and external-result table `ext`.
+The lexer and `TokenBuffer` are by contract (C03). -/
+section Html
+open Verif.Model.Html Verif.Model.HtmlAttr Verif.Proofs.C16Html Verif.Proofs.C16HtmlOpt Verif.Gen
+
+theorem ok_snd {a b : St × List Char} (h : (Except.ok a : Except String (St × List Char)) = .ok b) : a.2 = b.2 := by
+  cases h; rfl
+
+/-- the bytes written by one step (`none`: the step failed — an `ext` entry is missing) -/
+def stepOut (r : Except String (St × List Char)) : Option (List Char) :=
+  match r with
+  | .ok (_, out) => some out
+  | .error _ => none
+
+/-- the output of the model is the concatenation of one piece per input token, in order -/
+theorem html_pieces (o : Opts) (ext : Ext) (sub : Sub) (toks : List HTok) (out : List Char)
+    (h : htmlMinify o ext sub toks = .ok out) :
+    ∃ ps, trace o ext sub {} toks = .ok ps ∧ ps.map (·.tok) = toks ∧ out = flat ps := by
+  unfold htmlMinify at h
+  rw [run_eq_trace] at h
+  cases ht : trace o ext sub {} toks with
+  | error e => rw [ht] at h; cases h
+  | ok ps =>
+    rw [ht] at h
+    simp only [Except.map] at h
+    cases h
+    exact ⟨ps, rfl, trace_toks o ext sub {} toks ps ht, rfl⟩
+
+/-- the piece of a token that is not an end tag is produced with the skip flag off -/
+theorem html_piece_step (o : Opts) (ext : Ext) (sub : Sub) (toks : List HTok) (ps : List Piece)
+    (h : trace o ext sub {} toks = .ok ps) (p : Piece) (hp : p ∈ ps) :
+    (∃ st', step o ext sub p.st p.tok p.rest = .ok (st', p.out)) ∧ (isEndTag p.tok = false → p.st.dropEnd = false) := by
+  refine ⟨trace_step o ext sub {} toks ps h p hp, fun hne => ?_⟩
+  cases hd : p.st.dropEnd with
+  | false => rfl
+  | true =>
+    have := trace_dropEnd o ext sub {} toks ps h (fun h0 => by simp at h0) p hp hd
+    rw [this] at hne; cases hne
+
+/-- **`KeepComments`**: every comment token of the input is written byte for byte, in place — whole document,
+    all other options, no side condition -/
+theorem html_keep_comments (o : Opts) (ext : Ext) (sub : Sub) (toks : List HTok) (ps : List Piece)
+    (hk : o.keepComments = true) (h : trace o ext sub {} toks = .ok ps) :
+    ∀ p ∈ ps, ∀ data text, p.tok = .comment data text → p.out = data := by
+  intro p hp data text ht
+  obtain ⟨⟨st', hs⟩, hd⟩ := html_piece_step o ext sub toks ps h p hp
+  rw [ht] at hs hd
+  obtain ⟨st'', hs'⟩ := keep_comments_step o ext sub p.st data text p.rest hk (hd rfl)
+  rw [hs'] at hs
+  exact (ok_snd hs).symm
+
+example : htmlMinify { keepComments := true } [] none
+    [.startTag (s "p") [], .comment (s "<!-- a -->") (s " a "), .text (s "x") false] = .ok (s "<p><!-- a -->x") := by
+  decide +kernel
+
+/-- **`KeepSpecialComments`** (`KeepConditionalComments` is folded into it by `Minify`): every conditional
+    comment (`[if …`, `…[endif]`) and every server-side include (`<!--#…-->`) of the input is kept in place —
+    byte for byte, or, for a complete `<!--[if …]>inner<![endif]-->`, with `inner` replaced by its minified
+    form (the recursive call: `ext`) between the unchanged opener and closer -/
+theorem html_keep_special_comments (o : Opts) (ext : Ext) (sub : Sub) (toks : List HTok) (ps : List Piece)
+    (hk : o.keepSpecialComments = true) (h : trace o ext sub {} toks = .ok ps) :
+    ∀ p ∈ ps, ∀ data text, p.tok = .comment data text → (isSpecialComment text = true ∨ isSSI text = true) →
+      SpecialKept ext data p.out := by
+  intro p hp data text ht hsp
+  obtain ⟨⟨st', hs⟩, hd⟩ := html_piece_step o ext sub toks ps h p hp
+  rw [ht] at hs hd
+  simp only [step, hd rfl, Bool.false_eq_true, if_false, bind, Except.bind] at hs
+  split at hs
+  · cases hs
+  · next v hc =>
+    have e := ok_snd hs
+    simp only at e
+    rw [← e]
+    exact keep_special_commentOut o ext data text v hk hsp hc
+
+example : isSpecialComment (s "[if IE]> x <![endif]") = true ∧ isSSI (s "#include x") = true ∧
+    commentOut { keepSpecialComments := true } [(s "html", s " <p> x </p> ", s "<p>x")]
+      (s "<!--[if IE]> <p> x </p> <![endif]-->") (s "[if IE]> <p> x </p> <![endif]") = .ok (s "<!--[if IE]><p>x<![endif]-->") := by
+  decide +kernel
+
+/-- **`KeepEndTags`** (full since 44fae7b; former K-C16-1): every end tag token of the input is written (`endTagBytes`:
+    the tag with white space before `>` removed), in place — unless it belongs to an html/head/body/colgroup pair that
+    is dropped as a whole, i.e. `isDroppedTag` and the start tag was not written (`docOpen`, see
+    `html_keep_end_tags_pair`).  Whole document, all other options.  `p.st.dropEnd`: the end tag of an attribute-less
+    empty `<script></script>`/`<style></style>`, which is removed as a whole element. -/
+theorem html_keep_end_tags (o : Opts) (ext : Ext) (sub : Sub) (toks : List HTok) (ps : List Piece)
+    (hk : o.keepEndTags = true) (h : trace o ext sub {} toks = .ok ps) :
+    ∀ p ∈ ps, ∀ name data, p.tok = .endTag name data → p.st.dropEnd = false →
+      (isDroppedTag o name = false ∨ p.st.docOpen.contains name = true) → p.out = endTagBytes name data := by
+  intro p hp name data ht hd hopen
+  obtain ⟨st', hs⟩ := trace_step o ext sub {} toks ps h p hp
+  rw [ht] at hs
+  obtain ⟨st'', hs'⟩ := end_step_kept o ext sub p.st name data p.rest hd hk hopen
+  rw [hs'] at hs
+  exact (ok_snd hs).symm
+
+/-- **`KeepEndTags`**, the pairs: when a start tag is written (any element, html/head/body/colgroup included), the next
+    end tag token of that name is written too — from every state, for every token stream and all other options -/
+theorem html_keep_end_tags_pair (o : Opts) (ext : Ext) (sub : Sub) (st : St) (name : List Char) (attrs : List Attr)
+    (rest : List HTok) (p : Piece) (pre : List Piece) (q : Piece) (post : List Piece) (data : List Char)
+    (hk : o.keepEndTags = true)
+    (h : trace o ext sub st (.startTag name attrs :: rest) = .ok (p :: (pre ++ q :: post)))
+    (hout : p.out ≠ []) (hpre : ∀ x ∈ pre, ∀ d, x.tok ≠ .endTag name d)
+    (hq : q.tok = .endTag name data) (hd : q.st.dropEnd = false) :
+    q.out = endTagBytes name data := by
+  obtain ⟨st', out, ps', hs, ht, e⟩ := trace_cons o ext sub st _ rest _ h
+  simp only [List.cons.injEq] at e
+  have hqs : ∃ st'', step o ext sub q.st q.tok q.rest = .ok (st'', q.out) :=
+    trace_step o ext sub st' rest ps' ht q (by rw [← e.2]; simp)
+  obtain ⟨st'', hqs⟩ := hqs
+  rw [hq] at hqs
+  have hopen : isDroppedTag o name = false ∨ q.st.docOpen.contains name = true := by
+    cases hdr : isDroppedTag o name with
+    | false => exact Or.inl rfl
+    | true =>
+      right
+      have hpo : p.out = out := by rw [e.1]
+      have hm := step_start_open o ext sub st st' name attrs rest out hk hdr hs (hpo ▸ hout)
+      rw [← e.2] at ht
+      simpa using trace_docOpen_mem o ext sub name pre st' rest q post ht hm hpre
+  obtain ⟨st3, hs'⟩ := end_step_kept o ext sub q.st name data q.rest hd hk hopen
+  rw [hs'] at hqs
+  exact (ok_snd hqs).symm
+
+example : htmlMinify { keepEndTags := true } [] none
+    [.startTag (s "body") [{ name := s "class", val := s "a", data := s " class=a" }], .startTag (s "p") [],
+     .text (s "x") false, .endTag (s "p") (s "</p>"), .endTag (s "body") (s "</body>")] = .ok (s "<body class=a><p>x</p></body>") ∧
+    htmlMinify { keepEndTags := true } [] none
+    [.startTag (s "body") [], .startTag (s "p") [],
+     .text (s "x") false, .endTag (s "p") (s "</p>"), .endTag (s "body") (s "</body>")] = .ok (s "<p>x</p>") := by
+  decide +kernel
+
+/-- **`KeepDocumentTags`**: every `html`, `head` and `body` end tag is written, … -/
+theorem html_keep_document_tags_end (o : Opts) (ext : Ext) (sub : Sub) (toks : List HTok) (ps : List Piece)
+    (hk : o.keepDocumentTags = true) (h : trace o ext sub {} toks = .ok ps) :
+    ∀ p ∈ ps, ∀ name data, p.tok = .endTag name data → (name = s "html" ∨ name = s "head" ∨ name = s "body") →
+      p.st.dropEnd = false → p.out = endTagBytes name data := by
+  intro p hp name data ht hn hd
+  obtain ⟨st', hs⟩ := trace_step o ext sub {} toks ps h p hp
+  rw [ht] at hs
+  obtain ⟨n1, n2, n3, n4, _, _⟩ := doc_names name hn
+  have hdrop : isDroppedTag o name = false := by rw [keep_document_tags_dropped o name hk, n1]
+  have homit : omitEndTag o name p.rest = false := by simp [omitEndTag, n2, n3, n4]
+  obtain ⟨st'', hs'⟩ := end_step_written o ext sub p.st name data p.rest hd hdrop homit
+  rw [hs'] at hs
+  exact (ok_snd hs).symm
+
+/-- … and every `html`, `head` and `body` start tag is written as `<name` + attributes + `>` -/
+theorem html_keep_document_tags_start (o : Opts) (ext : Ext) (sub : Sub) (toks : List HTok) (ps : List Piece)
+    (hk : o.keepDocumentTags = true) (h : trace o ext sub {} toks = .ok ps) :
+    ∀ p ∈ ps, ∀ name attrs, p.tok = .startTag name attrs → (name = s "html" ∨ name = s "head" ∨ name = s "body") →
+      ∃ aout, p.out = '<' :: name ++ aout ++ ['>'] := by
+  intro p hp name attrs ht hn
+  obtain ⟨⟨st', hs⟩, hd⟩ := html_piece_step o ext sub toks ps h p hp
+  rw [ht] at hs hd
+  obtain ⟨n1, _, _, _, n5, n6⟩ := doc_names name hn
+  have hdrop : isDroppedTag o name = false := by rw [keep_document_tags_dropped o name hk, n1]
+  have hraw : emptyRawElement name attrs p.rest = false := by simp [emptyRawElement, n5, n6]
+  simp only [step, hd rfl, Bool.false_eq_true, if_false, hraw, hdrop, Bool.and_false, bind, Except.bind] at hs
+  split at hs
+  · cases hs
+  · split at hs
+    · cases hs
+    · exact ⟨_, (ok_snd hs).symm⟩
+
+example : htmlMinify { keepDocumentTags := true } [] none
+    [.startTag (s "html") [], .startTag (s "head") [], .endTag (s "head") (s "</head>"), .startTag (s "body") [],
+     .text (s "x") false, .endTag (s "body") (s "</body>"), .endTag (s "html") (s "</html >")] =
+      .ok (s "<html><head></head><body>x</body></html>") ∧
+    htmlMinify {} [] none
+    [.startTag (s "html") [], .startTag (s "head") [], .endTag (s "head") (s "</head>"), .startTag (s "body") [],
+     .text (s "x") false, .endTag (s "body") (s "</body>"), .endTag (s "html") (s "</html >")] = .ok (s "x") := by
+  decide +kernel
+
+/-- **`KeepQuotes`**, the quoting function: a value that was quoted in the input (`origQuote ≠ none`) is written
+    quoted whatever its content; with the original quote character and byte for byte when the value does not
+    contain that character -/
+theorem html_keep_quotes_value (b : List Char) (q : Quote) (hq : q ≠ .none) :
+    ∃ c body, isQuoteChar c = true ∧ escapeAttrVal b q true = c :: body ++ [c] ∧
+      (b.count q.char = 0 → c = q.char ∧ body = b) :=
+  keep_quotes_escape b q hq
+
+/-- **`KeepQuotes`**, one attribute of the write loop: for every attribute that was quoted in the input (and is
+    neither dropped nor a template), with all other options arbitrary, what is written is nothing (the attribute is
+    dropped), the bare name (the processed value is empty or the attribute is boolean), or ` name=` followed by a
+    value in quotes -/
+theorem html_keep_quotes (o : Opts) (ext : Ext) (sub : Sub) (tag rawTag : List Char) (x : AttrSt)
+    (out : List Char) (mt : Option (List Char)) (hk : o.keepQuotes = true) (hx : x.keep = true)
+    (ht : x.a.tmpl = false) (hq : origQuote x.a.data ≠ .none)
+    (h : writeAttr o ext sub tag rawTag x = .ok (out, mt)) :
+    out = [] ∨ out = ' ' :: x.name ∨
+      ∃ c body, isQuoteChar c = true ∧ out = ' ' :: x.name ++ '=' :: c :: body ++ [c] := by
+  rcases (writeAttr_shape o ext sub tag rawTag x out mt hx ht h).1 with h0 | ⟨val, hv⟩
+  · exact Or.inl h0
+  · split at hv
+    · obtain ⟨c, body, hc, he, _⟩ := keep_quotes_escape val _ hq
+      simp only [hk, Bool.true_or] at hv
+      rw [he] at hv
+      exact Or.inr (Or.inr ⟨c, body, hc, by simpa using hv⟩)
+    · exact Or.inr (Or.inl (by simpa using hv))
+
+example : writeAttr { keepQuotes := true } [] none (s "a") []
+      (AttrSt.ofAttr { name := s "title", val := s "x", data := s " title=\"x\"" }) = .ok (s " title=\"x\"", none) ∧
+    writeAttr {} [] none (s "a") []
+      (AttrSt.ofAttr { name := s "title", val := s "x", data := s " title=\"x\"" }) = .ok (s " title=x", none) := by
+  decide +kernel
+
+/-- **`KeepDefaultAttrVals`**, the write loop: with the option set an attribute is dropped by the write loop only for
+    one of the reasons that have nothing to do with defaults (`nonDefaultDrop`: empty `class`/`dir`/`id`/`name`/form
+    `action`; `style`/event handler whose minified content is empty) — never by the default-value table -/
+theorem html_keep_default_attrvals (o : Opts) (ext : Ext) (sub : Sub) (tag rawTag : List Char) (x : AttrSt)
+    (out : List Char) (mt : Option (List Char)) (hk : o.keepDefaultAttrVals = true) (hx : x.keep = true)
+    (ht : x.a.tmpl = false) (h : writeAttr o ext sub tag rawTag x = .ok (out, mt)) (hout : out = []) :
+    nonDefaultDrop tag x = true :=
+  (writeAttr_shape o ext sub tag rawTag x out mt hx ht h).2 hk hout
+
+example : writeAttr { keepDefaultAttrVals := true } [] none (s "form") []
+      (AttrSt.ofAttr { name := s "method", val := s "get", data := s " method=get" }) = .ok (s " method=get", none) ∧
+    writeAttr {} [] none (s "form") []
+      (AttrSt.ofAttr { name := s "method", val := s "get", data := s " method=get" }) = .ok ([], none) := by
+  decide +kernel
+
+/-- **`KeepDefaultAttrVals`, `input`** (full since c5a4469; former K-C16-2): with the option the special case that
+    removes a default `value` (`""` for the text-like types, `on` for `radio`) is switched off — every attribute of an
+    `input` element reaches the write loop; for all other elements the special cases do not depend on the option -/
+theorem html_keep_default_input (o : Opts) (ext : Ext) (hk : o.keepDefaultAttrVals = true) :
+    (∀ as : List AttrSt, specialAttrsOpt o ext (s "input") as = .ok as) ∧
+    (∀ (o' : Opts) (tag : List Char) (as : List AttrSt), hashIs tag "input" = false →
+      specialAttrsOpt o' ext tag as = specialAttrs ext tag as) :=
+  ⟨fun as => specialAttrsOpt_input o ext as hk, fun o' tag as h => specialAttrsOpt_other o' ext tag as h⟩
+
+example : htmlMinify { keepDefaultAttrVals := true } [] none
+    [.startTag (s "input") [{ name := s "type", val := s "text", data := s " type=text" },
+                             { name := s "value", val := [], data := s " value=\"\"" }]] = .ok (s "<input type=text value>") ∧
+    htmlMinify {} [] none
+    [.startTag (s "input") [{ name := s "type", val := s "text", data := s " type=text" },
+                             { name := s "value", val := [], data := s " value=\"\"" }]] = .ok (s "<input>") := by
+  decide +kernel
+
+/-- **`KeepWhitespace`**, text: the collapsed text (runs of white space → one byte, references replaced) is
+    written, except that (a) one leading white-space byte is dropped only if the pending-space flag is set and (b)
+    one trailing white-space byte only if nothing but white space and comments follow up to the end of the document
+    (or the token was white space only) -/
+theorem html_keep_whitespace_text (om : Bool) (data : List Char) (rest : List HTok) :
+    ∃ lead trail, textCollapsed data = lead ++ (textNormal true om data rest).2 ++ trail ∧
+      lead.length ≤ 1 ∧ trail.length ≤ 1 ∧ lead.all isWhitespace = true ∧ trail.all isWhitespace = true ∧
+      (lead ≠ [] → om = true) ∧ (trail ≠ [] → onlyWsToEnd rest = true ∨ (textNormal true om data rest).2 = []) :=
+  keepws_textNormal om data rest
+
+/-- **`KeepWhitespace`**, the pending-space flag: (a) every start or end tag that is written clears it, block or
+    not; (b) the text branch sets it only when what it wrote ends with white space (or it wrote nothing).  So a
+    leading white-space byte is dropped only directly after white space that was kept, or at the start of the document -/
+theorem html_keep_whitespace_flag (o : Opts) (hk : o.keepWhitespace = true) :
+    (∀ name cur, updOmitSpace o name cur = false) ∧
+    (∀ om data rest, (textNormal true om data rest).1 = true →
+      (textNormal true om data rest).2 = [] ∨
+        ∃ l, (textNormal true om data rest).2.getLast? = some l ∧ isWhitespace l = true) :=
+  ⟨fun name cur => keepws_updOmitSpace o name cur hk, fun om data rest h => keepws_textNormal_flag true om data rest h⟩
+
+example : htmlMinify { keepWhitespace := true } [] none
+    [.startTag (s "p") [], .text (s "a ") false, .startTag (s "b") [], .text (s " b ") false, .endTag (s "b") (s "</b>"),
+     .text (s " c") false, .endTag (s "p") (s "</p>"), .text (s "  ") false, .startTag (s "p") [], .text (s " d ") false] =
+      .ok (s "<p>a <b> b </b> c <p> d") ∧
+    htmlMinify {} [] none
+    [.startTag (s "p") [], .text (s "a ") false, .startTag (s "b") [], .text (s " b ") false, .endTag (s "b") (s "</b>"),
+     .text (s " c") false, .endTag (s "p") (s "</p>"), .text (s "  ") false, .startTag (s "p") [], .text (s " d ") false] =
+      .ok (s "<p>a <b>b </b>c<p>d") := by
+  decide +kernel
+
+/-- **`TemplateDelims`** (the lexer marks the tokens that contain a template expression: by contract): a template
+    token and an attribute with a template expression are written byte for byte — for all options -/
+theorem html_template_verbatim (o : Opts) (ext : Ext) (sub : Sub) :
+    (∀ (toks : List HTok) (ps : List Piece), trace o ext sub {} toks = .ok ps →
+      ∀ p ∈ ps, ∀ data, p.tok = .template data → p.out = data) ∧
+    (∀ tag rawTag (x : AttrSt), x.keep = true → x.a.tmpl = true →
+      writeAttr o ext sub tag rawTag x = .ok (x.a.data, none)) := by
+  refine ⟨?_, fun tag rawTag x hx ht => writeAttr_template o ext sub tag rawTag x hx ht⟩
+  intro toks ps h p hp data ht
+  obtain ⟨⟨st', hs⟩, hd⟩ := html_piece_step o ext sub toks ps h p hp
+  rw [ht] at hs hd
+  simp only [step, hd rfl, Bool.false_eq_true, if_false] at hs
+  exact (ok_snd hs).symm
+
+end Html
+
+/-! ## SVG (`Verif.Model.SvgDoc`, the C05B model of the document loop of `svg.Minify`) -/
+section Svg
+open Verif.Model.SvgDoc Verif.SvgDoc Verif.Proofs.C16Svg
+
+/-- SVG `KeepComments`: a comment token that the loop meets is planned — and (`fillAt`) written — as it is, whatever
+    the state, `Inline` and the number printer.  (Tokens the loop never looks at — the inside of `metadata`, of
+    foreign-prefixed elements, of an empty `defs`, of the XML declaration — are skipped with their element for every
+    option; inside `foreignObject` everything, comments included, is copied verbatim for every option.) -/
+theorem svg_keep_comments (num : List Char → List Char) (inl : Bool) (st : St) (d : List Char) (r : List STok)
+    (e : Env) (br : Nat) :
+    plan num ⟨true, inl⟩ st 0 (.comment d :: r) = PTok.tok (.comment d) :: plan num ⟨true, inl⟩ st 0 r ∧
+    (fillAt e br (.tok (.comment d))).1 = .comment d :=
+  ⟨plan_comment num inl st d r, rfl⟩
+
+/-- SVG `KeepComments` does nothing else: what is written without the option is a subsequence of what is written with
+    it, and apart from comment tokens both runs plan exactly the same tokens — every token stream, state, look-ahead
+    counter -/
+theorem svg_keep_comments_only (num : List Char → List Char) (inl : Bool) (ts : List STok) (st : St) (k : Nat) :
+    List.Sublist (plan num ⟨false, inl⟩ st k ts) (plan num ⟨true, inl⟩ st k ts) ∧
+    (plan num ⟨true, inl⟩ st k ts).filter notComment = (plan num ⟨false, inl⟩ st k ts).filter notComment :=
+  ⟨plan_sublist num inl ts st k, plan_filter num inl ts st k⟩
+
+example :
+    let ts : List STok := [.startTag "svg".toList, .startTagClose, .comment "<!-- a -->".toList, .startTag "g".toList,
+      .startTagCloseVoid, .endTag "</svg>".toList "svg".toList]
+    let e : Env := ⟨fun _ _ _ => none, id, id⟩
+    svgMinify e ⟨true, false⟩ ts = "<svg><!-- a --><g/></svg>".toList ∧
+    svgMinify e ⟨false, false⟩ ts = "<svg><g/></svg>".toList := by
+  decide +kernel
+
+end Svg
+
+/-! ## the guarantees of the other properties under every option combination
+
+The main theorems of C01–C08 whose statements are universally quantified over the option record of their minifier
+(or over the parameter through which the option enters the model), restated here with the quantifier in front.  For
+C01–C03 they are derived from the lemmas in `Proofs/` (not from `Props/C0x`, which are being adapted to the
+current `/repo`); docs/C16.md lists, per property, which theorem is option-universal and which fixes options. -/
+
+/-- C03 whitespace refinement: every `Opts` (all `Keep*` masks), every sub-minifier and `ext` table -/
+theorem html_ws_refine_all_options (o : Verif.Model.Html.Opts) (ext : Verif.Model.Html.Ext) (sub : Verif.Model.Html.Sub)
+    (toks : List Verif.Model.Html.HTok) (g : Verif.Proofs.HtmlWs.guard o ext sub {} [] toks = true) :
+    Verif.Spec.HtmlWs.WsRefine (Verif.Proofs.HtmlWs.inOut o ext sub {} toks).1 (Verif.Proofs.HtmlWs.inOut o ext sub {} toks).2 :=
+  Verif.Proofs.HtmlWs.ws_refine_core o ext sub toks {} [] (fun _ _ => rfl) g
+section JsAll
+open Verif.Spec.Scope Verif.Model.Rename Verif.Proofs.Rename
+/-- C02 capture freedom for the scope trees js.go produces, `keep` = `KeepVarNames`, both values (the statement of
+    C02 `capture_free_js`; derived here from the C02 traversal lemmas `main`, `resolve_ok`, `computeFlags_flagsOk`) -/
+theorem js_capture_free_all_options (c : Cfg) (ok : CfgOk c) (ν : Naming) (keep : Bool) (t : Tree)
+    (hwf : wfTree (Tree.withFlags keep t) = true)
+    (hin : inputOk ν (Tree.withFlags keep t).toForest = true) :
+    ∀ o ∈ (Tree.withFlags keep t).toForest.occs,
+      resolve (renameTree c ν (Tree.withFlags keep t)) o.1 (renameTree c ν (Tree.withFlags keep t) o.2) =
+        resolveId o.1 o.2 := by
+  have hflags : flagsOk (Tree.withFlags keep t).toForest = true := by
+    simp only [Tree.withFlags, Tree.toForest, flagsOk, Bool.false_eq_true, if_false, Bool.and_true]
+    apply computeFlags_flagsOk
+    intro h
+    simp only [Bool.and_eq_true, Bool.not_eq_true', Bool.or_eq_false_iff] at h
+    exact ⟨h.1, h.2.2⟩
+  generalize Tree.withFlags keep t = t' at hwf hin hflags ⊢
+  simp only [wfTree, wfForest, Bool.and_eq_true, decide_eq_true_eq] at hwf
+  have hcl : Closed t'.toForest := by
+    intro x hx
+    simp only [Tree.toForest] at hx ⊢
+    rw [mem_free_node] at hx
+    have hx' : x ∈ Forest.freeScope t'.root t'.children := by
+      rcases hx with hx | hx
+      · exact hx
+      · simp [Forest.free] at hx
+    have hs := scopeOk_iff.1 ((all_node _ _ _ _).1 hwf.2).1
+    rw [decls_node]
+    simp only [Forest.decls, List.append_nil, List.mem_append, not_or]
+    exact ⟨(mem_freeScope.1 hx').2, hs.2 x hx'⟩
+  have hall := main c ok ν t'.toForest ν true hwf.1 hwf.2 hcl (by simp) (fun _ => hflags)
+    (fun _ _ _ => rfl) (fun _ => hin)
+  intro o ho
+  exact (resolve_ok (renameForest c ν t'.toForest) t'.toForest hall o ho).1
+end JsAll
+/-- C01 rewrite soundness: `v20` = `minVersion(2020)`, both values -/
+theorem js_rewrite_sound_all_versions : type_of% @Verif.Proofs.JsMinSound.minEG_sound := @Verif.Proofs.JsMinSound.minEG_sound
+/-- C06 infoset and well-formedness: every `XmlOpts` (`KeepWhitespace`) -/
+theorem xml_infoset_all_options : type_of% @Verif.Props.C06.xml_infoset := @Verif.Props.C06.xml_infoset
+theorem xml_wellformed_all_options : type_of% @Verif.Props.C06.xml_wellformed := @Verif.Props.C06.xml_wellformed
+/-- C07 main theorem: every `JsonOpts` (`KeepNumbers`, `Precision` through the hypotheses on `num`) -/
+theorem json_main_all_options : type_of% @Verif.Props.C07.C07_main := @Verif.Props.C07.C07_main
+/-- C04 pass-through of unknown properties: every `Opts` (`KeepCSS2`) -/
+theorem css_passthrough_all_options : type_of% @Verif.Props.C04.passthrough_property := @Verif.Props.C04.passthrough_property
+/-- C05 path geometry: every pair of number printers (`Precision`, `newPrecision`) that satisfies the exactness contract -/
+theorem svg_path_geometry_all_printers : type_of% @Verif.Props.C05.path_geometry_partial := @Verif.Props.C05.path_geometry_partial
+/-- C05 path output parses: every pair of number printers whose results are number lexemes (C08: every precision) -/
+theorem svg_path_parses_all_printers : type_of% @Verif.Props.C05.shorten_output_parses_of_contract :=
+  @Verif.Props.C05.shorten_output_parses_of_contract
+/-- C08 grammar and length: every precision -/
+theorem number_grammar_all_precisions : type_of% @Verif.Props.C08.number_grammar := @Verif.Props.C08.number_grammar
+theorem number_length_all_precisions : type_of% @Verif.Props.C08.number_length := @Verif.Props.C08.number_length
 
 end Verif.Props.C16
